@@ -3,13 +3,19 @@
  * Operations (one per line):
  *   new L C                     terminal L x C (headless xterm), root window = id 0
  *   win P t l n c F             new window (next id) under P; F = bit mask HIDDEN=1 LOWEST=2 ROOT_PARENT=4 STEAL=8
- *   bind W k|m E...             bind a key / mouse handler on W.  E = <ret>[,<a><id>]*  is the behaviour of one
- *                               invocation: run the actions, return ret (1 = claim).  Invocation i uses entry min(i, n-1).
+ *   bind W k|m|ko|mo E...       bind a key / mouse handler on W (ko / mo: with TICKIT_BIND_ONESHOT).
+ *                               E = <ret>[,!][,<a><id>]*  is the behaviour of one invocation: (`!`: first unbind this very
+ *                               binding with tickit_window_unbind_event_id, from inside its own invocation), run the
+ *                               actions, return ret (1 = claim).  Invocation i uses entry min(i, n-1).
  *   act <a><id>                 the same action performed outside any handler
  *   geom W t l n c              tickit_window_set_geometry
  *   flush                       tickit_window_flush(root)
  *   key T M                     tickit_term_emit_key   (type, modifiers)
  *   mouse T B L C M             tickit_term_emit_mouse (type, button, line, col, modifiers)
+ *   x10 CODE L C                one mouse report in the X10 encoding, as BYTES: ESC [ M <32+CODE> <32+C+1> <32+L+1> through
+ *                               tickit_term_input_push_bytes (libtermkey decodes it, got_key() of src/term.c translates it
+ *                               and keeps the held-button record that names the button of a button-less X10 release);
+ *                               CODE = button code 0..2, 3 = release, +32 motion, 64/65 wheel, +4 shift +8 alt +16 ctrl
  * Actions: c close, u unref, k ref (keep), h hide, s show, r raise, R raise_to_front, l lower, L lower_to_back,
  *          f take_focus, t steal-input on, T steal-input off.
  * The harness is the application: it owns one reference per window it created (plus one per `k`), and it follows
@@ -35,8 +41,8 @@
 #define MAXA 6
 
 typedef struct { char a; int w; } Action;
-typedef struct { int ret; int nact; Action act[MAXA]; } Entry;
-typedef struct { int win, idx, kind, n, count; Entry e[MAXE]; } Binding;
+typedef struct { int ret; int unbind; int nact; Action act[MAXA]; } Entry;
+typedef struct { int win, idx, kind, n, count, id; Entry e[MAXE]; } Binding;
 
 static TickitTerm *tt;
 static TickitWindow *W[MAXW];
@@ -138,6 +144,8 @@ static int on_event(TickitWindow *win, TickitEventFlags flags, void *_info, void
     TickitMouseEventInfo *info = _info;
     item("M%d.%d/%d%c:%d,%d,%d,%d,%d", b->win, b->idx, ei, e->ret ? '+' : '-', (int)info->type, info->button, info->line, info->col, info->mod);
   }
+  if(e->unbind)
+    tickit_window_unbind_event_id(W[b->win], b->id);
   for(int i = 0; i < e->nact; i++)
     do_action(e->act[i]);
   return e->ret;
@@ -208,7 +216,11 @@ static int parse_entry(char *s, Entry *e)
   if(!t || (strcmp(t, "0") && strcmp(t, "1"))) return 0;
   e->ret = t[0] == '1';
   e->nact = 0;
+  e->unbind = 0;
+  int first = 1;
   while((t = strtok_r(NULL, ",", &save))) {
+    if(first && strcmp(t, "!") == 0) { e->unbind = 1; first = 0; continue; }
+    first = 0;
     if(e->nact >= MAXA || !parse_action(t, &e->act[e->nact])) return 0;
     e->nact++;
   }
@@ -254,8 +266,9 @@ static void engine_op(int argc, char **argv)
   }
   if(strcmp(op, "bind") == 0 && argc >= 4 && argc - 3 <= MAXE) {
     int w = atoi(argv[1]);
-    int kind = strcmp(argv[2], "k") == 0 ? 0 : strcmp(argv[2], "m") == 0 ? 1 : -1;
-    if(kind < 0) { obs("bad-op"); return; }
+    int kind = argv[2][0] == 'k' ? 0 : argv[2][0] == 'm' ? 1 : -1;
+    int oneshot = strcmp(argv[2] + 1, "o") == 0;
+    if(kind < 0 || (argv[2][1] && !oneshot)) { obs("bad-op"); return; }
     if(w < 0 || w >= nW || !alive[w] || nB >= MAXB) { item("skip"); dump(); return; }
     Binding *b = calloc(1, sizeof *b);
     b->win = w; b->kind = kind; b->idx = nbind[w][kind]; b->n = argc - 3;
@@ -263,7 +276,8 @@ static void engine_op(int argc, char **argv)
       if(!parse_entry(argv[3 + i], &b->e[i])) { free(b); obs("bad-op"); return; }
     nbind[w][kind]++;
     B[nB++] = b;
-    tickit_window_bind_event(W[w], kind == 0 ? TICKIT_WINDOW_ON_KEY : TICKIT_WINDOW_ON_MOUSE, 0, on_event, b);
+    b->id = tickit_window_bind_event(W[w], kind == 0 ? TICKIT_WINDOW_ON_KEY : TICKIT_WINDOW_ON_MOUSE,
+        oneshot ? TICKIT_BIND_ONESHOT : 0, on_event, b);
     item("b%d", b->idx);
     dump();
     return;
@@ -298,6 +312,15 @@ static void engine_op(int argc, char **argv)
   if(strcmp(op, "mouse") == 0 && argc == 6) {
     TickitMouseEventInfo info = { .type = atoi(argv[1]), .button = atoi(argv[2]), .line = atoi(argv[3]), .col = atoi(argv[4]), .mod = atoi(argv[5]) };
     tickit_term_emit_mouse(tt, &info);
+    dump();
+    return;
+  }
+  if(strcmp(op, "x10") == 0 && argc == 4) {
+    int code = atoi(argv[1]), l = atoi(argv[2]), c = atoi(argv[3]);
+    /* keep every byte below 0x80: above, libtermkey's UTF-8 mode has a say */
+    if(code < 0 || code >= 96 || l < 0 || l >= 94 || c < 0 || c >= 94) { obs("bad-op"); return; }
+    char buf[6] = { 0x1b, '[', 'M', (char)(32 + code), (char)(32 + c + 1), (char)(32 + l + 1) };
+    tickit_term_input_push_bytes(tt, buf, 6);
     dump();
     return;
   }
